@@ -5,6 +5,7 @@ The reference decoders are written from the property statements and the
 documented file grammars; they never call the repo's decoders.
 """
 import os
+import zlib
 import struct
 import tempfile
 
@@ -66,6 +67,27 @@ class TempFile:
             os.unlink(self.path)
         except OSError:
             pass
+
+
+def view(data):
+    """the bytes handed to a decoder as one of the buffers a caller may legitimately hold: a view of a bytes or a
+    bytearray object, or a window into a larger buffer whose surroundings look like decodable content.  Which one
+    is a function of the data only (no randomness outside the generators, replays stay exact)."""
+    mode = zlib.crc32(bytes(data)) % 5
+    if mode == 0:
+        return memoryview(bytes(data))
+    if mode == 1:
+        return memoryview(bytearray(data))
+    before = b'\xEE\x00\x01' + b'\x02\x20\x01\x42' + b'POWR' + bytes(range(24, 64))
+    after = b'\x02\x20\x01\x42' + b'FANS' + b'\x00\x01\x00\x00' + bytes(40)
+    if mode == 2:
+        whole = before + bytes(data) + after
+    elif mode == 3:
+        whole = bytearray(before + bytes(data) + after)
+    else:
+        whole = bytes(data) + after
+        return memoryview(whole)[:len(data)]
+    return memoryview(whole)[len(before):len(before) + len(data)]
 
 
 def default_hexdump_lines(data):
@@ -282,6 +304,45 @@ def pattern_matches(pattern, pte):
         if pc.upper() != hc:
             return False
     return True
+
+
+_overlaps = {}
+
+
+def order_sensitive_ptes(name, limit=8):
+    """PTE values of a shipped table on which the ORDER of the table decides the answer: for a wildcard entry that
+    follows a more specific entry it also covers, one value both match and one value only the wildcard entry matches.
+    Deterministic (first `limit` such pairs in table order)."""
+    if name in _overlaps:
+        return _overlaps[name]
+    table = read_shipped_pte_table(shipped(name))
+    out = []
+    for j, general in enumerate(table):
+        pat = general['pattern']
+        if len(pat) != 8 or '*' not in pat:
+            continue
+        for specific in table[:j]:
+            sp = specific['pattern']
+            if len(sp) != 8 or '*' in sp:
+                continue
+            v = int(sp, 16)
+            if not pattern_matches(pat, v):
+                continue
+            if ref_ilog_message([specific], v) == ref_ilog_message([general], v):
+                continue        # both entries say the same about v: their order is unobservable
+            # a value only the general entry (and no earlier one) matches
+            for d in '0123456789ABCDEF':
+                w = int(''.join(d if c == '*' else c for c in pat), 16)
+                if w != v and next((k for k, e in enumerate(table) if pattern_matches(e['pattern'], w)), None) == j:
+                    if (v, w) not in out:
+                        out.append((v, w))
+                    break
+            if len(out) >= limit:
+                break
+        if len(out) >= limit:
+            break
+    _overlaps[name] = out
+    return out
 
 
 def is_reported_error(pte):
